@@ -22,6 +22,9 @@ fn reference_cum(p: &Pos, d: u32) -> u64 {
 fn engine_count(g: &mut MoveGenerator, p: &Pos, d: u32, pool: usize) -> Result<u64, String> {
     let mut b = to_engine(p);
     let side = ecol(p.turn);
+    // every other call leaves the board's turn flag on the other colour: the side is an explicit argument
+    // (the engine's own counting never toggles the flag)
+    if (p.key_hash() ^ d as u64 ^ pool as u64) & 1 == 1 { b.set_turn(side.opposite()); }
     let before = crate::snap::Snapshot::take(&b);
     let tp = rayon::ThreadPoolBuilder::new().num_threads(pool).build().map_err(|e| e.to_string())?;
     let r = par::guarded(|| tp.install(|| g.count_positions(d as u8, &mut b, side) as u64));
@@ -54,6 +57,8 @@ pub fn c10(o: &Opts) -> i32 {
         else { targets.push((p.clone(), if heavy { 3 } else { 4 }, t.clone())); }
     }
     for _ in 0..if q { 10 } else { 120 } { let p = gen::random_setup(&mut r); let d = if p.piece_count() > 14 { 2 } else { 3 }; targets.push((p, d, "random set-up".into())); }
+    // roots one of whose moves mates or stalemates (a branch that ends at once next to branches that go on)
+    { let mut found = 0; let mut tries = 0; while found < if q { 9 } else { 60 } && tries < 20000 { tries += 1; let p = gen::random_ending(&mut r); let ms = p.legal_moves(); if ms.len() >= 3 && ms.len() <= 24 && ms.iter().any(|m| p.make(m).legal_moves().is_empty()) { found += 1; targets.insert(1 + (found * 2).min(targets.len() - 1), (p, 3, "root with a game-ending move".into())); } } ctx.count("roots_with_a_game_ending_move", found as u64); }
     if let Some(path) = &o.replay {
         let v = load_replay(path);
         let p = Pos::from_fen(v["fen"].as_str().unwrap_or("")).unwrap();
